@@ -20,6 +20,7 @@ def run_property(prop: str, tier: str, program: Program, seed: int, quiet: bool 
     mod = importlib.import_module(f"sa.props.{prop.lower()}")
     ctx = Ctx(program, prop, tier)
     mod.check(ctx)
+    ctx.finish()
     if tier == "thorough" and hasattr(mod, "thorough"):
         mod.thorough(ctx)
     return emit(ctx, time.time() - t0, seed, quiet=quiet)
@@ -50,6 +51,7 @@ def main(argv=None) -> int:
             mod = importlib.import_module(f"sa.props.{prop.lower()}")
             ctx = Ctx(program, prop, "quick")
             mod.check(ctx)
+            ctx.finish()
             hit = [f for f in ctx.findings if f.key == rep["key"]]
             if hit:
                 print(f"REPLAY: still violated on the current tree: property={prop}")
